@@ -313,8 +313,8 @@ func genField(t *simhook.Tape, m *dynamicpb.Message, fd protoreflect.FieldDescri
 	case fd.IsList():
 		n := 1 + t.Draw("listn", cfg.MaxListLen)
 		l := m.Mutable(fd).List()
-		if cfg.BigLists && fd.Kind() == protoreflect.MessageKind && t.Chance("biglist", 1, 12) {
-			for i, big := 0, 513+t.Draw("biglistn", 200); i < big; i++ {
+		if cfg.BigLists && fd.Kind() == protoreflect.MessageKind && fd.Message().Fields().Len() <= 12 && t.Chance("biglist", 1, 48) {
+			for i, big := 0, 513+t.Draw("biglistn", 24); i < big; i++ {
 				l.Append(protoreflect.ValueOfMessage(dynamicpb.NewMessage(fd.Message())))
 			}
 			return
